@@ -22,7 +22,7 @@ TEXT = {
  "C05": ("Real GraphEngine under sequential model-based programs and 2-8 thread stress on hub nodes (seeded jitter and deterministic parking at the adjacency read-modify-write hook); batch creations/deletions from several threads on mostly disjoint nodes and racing delete_node; single-threaded bulk programs (batch_delete_nodes/edges on adjacent nodes around the 100-edge parallel threshold) against a reference multigraph; structural invariant walker and no-lost-edge conservation at quiescence; TSan leg on the concurrent part.",
          "Held on the programs/interleavings explored.",
          "runtime monitoring: invariant walker at quiescence + conservation oracle under stress and forced interleavings; ThreadSanitizer"),
- "C06": ("Real VectorEngine/HNSW against an f64 reference scorer: exhaustive-search exactness, cached-index soundness after every mutation API, re-ranking searches under every extended metric, queries of another dimension on every index-assisted path, read-back exactness, on random stores (dense/sparse/zero/duplicate/mixed dimensions) and operation programs.",
+ "C06": ("Real VectorEngine/HNSW against an f64 reference scorer: exhaustive-search exactness, cached-index soundness after every mutation API, re-ranking searches under every extended metric, queries of another dimension on every index-assisted path, searches in flight on several threads while every mutation API runs and index builds overlapping mutations (judged from call brackets and after the join), read-back exactness, on random stores (dense/sparse/zero/duplicate/mixed dimensions) and operation programs.",
          "Held on the programs explored; <=300 vectors, dim <=64 (+ some 384/768); epsilon for f32-vs-f64.",
          "runtime monitoring: reference-scorer oracle over randomized operation programs"),
  "C07": ("Stores filled through the real engines and raw puts (including cache-ring keys and incompressible payloads) are saved/loaded through 9 paths (plus routers built with SlabRouter::with_config at embedding dimensions 1-600) and re-observed through store and engine read APIs including relational-slab index reads after random schema/index histories (deep equality, documented tolerance for tensor-train vectors); atomic replacement is checked by killing a real save at every write/open/rename syscall under strace and loading the destination, by a protocol check on the syscall log, by enumerating temp-file prefixes and stale temp files, and by re-snapshotting after further writes.",
@@ -37,10 +37,10 @@ TEXT = {
  "C10": ("A real RaftNode with a real WAL is driven through elections, votes, appends, truncations, leader careers, log compaction and snapshot installs; every reply/ack adds obligations (term, vote, entries) stamped with the WAL length; every byte-prefix crash image (chains of 3 crashes) is restarted with with_wal and must honour all obligations stamped before the cut.",
          "Process-crash model; see C02.",
          "runtime monitoring: promise-ledger oracle over byte-granular crash images of the real WAL"),
- "C11": ("2-8 OS threads on 1-4 contended keys of every key class on one real TensorStore (durable and not); client-boundary history with atomic ticks; self-describing values detect torn/mixed reads; per-key Wing-Gong linearizability check; scan atomicity over >2000 keys against real-time ordered write pairs; recovered-state == live-state after quiescence with checkpoints concurrent to the writers; deterministic two-writer schedule at the put_durable hook; the same workload under ThreadSanitizer.",
+ "C11": ("2-8 OS threads on 1-4 contended keys of every key class on one real TensorStore (durable and not); client-boundary history with atomic ticks; self-describing values detect torn/mixed reads; per-key Wing-Gong linearizability check; scan atomicity over >2000 keys against real-time ordered write pairs; recovered-state == live-state after quiescence with checkpoints concurrent to the writers; deterministic two-writer schedule at the put_durable hook; rounds in which the durable log refuses records (refused writes are open operations; the files a crash would leave must recover to the live state); the same workload under ThreadSanitizer.",
          "Held on the interleavings observed; delete's Ok/NotFound result is not judged; scan atomicity is judged for keys of one class.",
          "runtime monitoring: linearizability checking of recorded histories + ThreadSanitizer + forced interleavings at hooks"),
- "C12": ("Real LockManager under 2-6 threads with a sound shadow-owner table, model-based sequential programs with expiry and serialize/restore, and the real WaitForGraph/DeadlockDetector against a reference SCC on all digraphs over <=4 transactions and random ones up to 8.",
+ "C12": ("Real LockManager under 2-6 threads with a sound shadow-owner table, model-based sequential programs with expiry and serialize/restore, the real coordinator and a real TxParticipant under retransmitted PREPAREs, stray decisions, stale sweeps and save/load against a reference key->holder table, preparing threads against an orphan-lock sweeper thread, and the real WaitForGraph/DeadlockDetector against a reference SCC on all digraphs over <=4 transactions and random ones up to 8.",
          "Held on what was explored; expiry windows are don't-care.",
          "runtime monitoring: shadow-state monitor + reference oracle (exhaustive for <=4 transactions)"),
  "C13": ("Real coordinator with a real TxWal: byte-granular crash images (chains of 3) are recovered and probed (commit/abort/timeouts/pending decisions/new transactions) against a classification the harness decodes itself from the durable prefix (including lock handles of completed transactions, completions logged after the restart, outcomes announced by commit/abort/cleanup_timeouts/complete_* before the crash, and transactions whose log says Prepared although a participant had not voted).",
@@ -64,7 +64,7 @@ TEXT = {
  "C19": ("Real BlobStore against a byte-exact model with chunk reference-count conservation at quiescence, sizes around chunk boundaries, damage injection for verify, and concurrent writers/deleters/collectors.",
          "Held on the programs/interleavings explored.",
          "runtime monitoring: model + conservation oracle under concurrency"),
- "C20": ("Round-trip oracles for every codec over generated values, and robustness of every decoder on truncated/bit-flipped/random bytes with a counting allocator for allocation limits; crash containment in child processes; Miri on the pure codecs.",
+ "C20": ("Round-trip oracles for every codec over generated values, and robustness of every decoder on truncated/bit-flipped/random bytes and on structurally valid encodings of hostile values (unsorted/duplicate/out-of-range position lists, mismatched counts, extreme dimensions, inconsistent tensor-train cores; in memory and through snapshot files) with a counting allocator for allocation limits; crash containment in child processes; Miri on the pure codecs.",
          "Held on the inputs explored.",
          "runtime monitoring: round-trip and robustness oracles with allocation monitor; Miri on pure codecs"),
 }
